@@ -149,15 +149,13 @@ Section Eval.
     eval_rw m conds store subj v o r (Union l) =
     or3_list (map (eval_rw m conds store subj v o r) l).
   Proof.
-    intros store v o r l; simpl; f_equal.
-    induction l as [|x l IH]; simpl; [reflexivity | rewrite IH; reflexivity].
+    intros store v o r l; reflexivity.
   Qed.
   Lemma eval_rw_Inter : forall store v o r l,
     eval_rw m conds store subj v o r (Inter l) =
     and3_list (map (eval_rw m conds store subj v o r) l).
   Proof.
-    intros store v o r l; simpl; f_equal.
-    induction l as [|x l IH]; simpl; [reflexivity | rewrite IH; reflexivity].
+    intros store v o r l; reflexivity.
   Qed.
 
   (* two stores are interchangeable when every (object, relation) read returns the same valid
@@ -443,10 +441,13 @@ Section Iter.
   Qed.
 
   Lemma vle_nil : forall w, vle [] w.
-  Proof. intros w a; simpl. apply le3_F_l. Qed.
+  Proof. intros w a; reflexivity. Qed.
 
   Lemma atoms_at_length : forall k, (length (L k) <= length atoms)%nat.
-  Proof. intro k; unfold atoms_at. apply filter_length_le. Qed.
+  Proof.
+    intro k; unfold atoms_at. induction atoms as [|a l IH]; simpl; [lia|].
+    destruct (Nat.eqb (lvl_get (final_levels m) (otype (fst a)) (snd a)) k); simpl; lia.
+  Qed.
 
   Theorem lfp_at_converges : forall k fuel,
     (2 * length (L k) + 1 <= fuel)%nat ->
@@ -553,7 +554,7 @@ Section Levels.
   Lemma positive_stratified : stratified m = true.
   Proof.
     unfold stratified, levels_eqb. apply forallb_forall. intros [[t r] n] Hp.
-    rewrite (final_levels_zero _ Hp). simpl.
+    pose proof (final_levels_zero _ Hp) as Hn. simpl in Hn. subst n.
     rewrite (lvl_get_zero _ t r (lvl_step_zero _ final_levels_zero)). reflexivity.
   Qed.
 
@@ -569,14 +570,15 @@ Section Levels.
     (fst (lfp_at m conds store subj atoms O (round_fuel atoms) []),
      snd (lfp_at m conds store subj atoms O (round_fuel atoms) []) && true).
   Proof.
-    intros conds store subj atoms. unfold lfp. rewrite positive_max_level. simpl.
+    intros conds store subj atoms. unfold lfp. rewrite positive_max_level.
+    cbn [run_strata].
     destruct (lfp_at m conds store subj atoms O (round_fuel atoms) []) as [v ok]. reflexivity.
   Qed.
 
   Theorem converged_positive : forall conds store subj atoms,
     converged m conds store subj atoms = true.
   Proof.
-    intros conds store subj atoms. unfold converged. rewrite positive_lfp. simpl.
+    intros conds store subj atoms. unfold converged. rewrite positive_lfp. cbn [fst snd].
     rewrite (lfp_at_converges_round_fuel m conds store subj atoms Hpos O). reflexivity.
   Qed.
 
@@ -586,7 +588,7 @@ Section Levels.
     eval_atom m conds store subj (fst (lfp m conds store subj atoms)) a =
     vget (fst (lfp m conds store subj atoms)) a.
   Proof.
-    intros conds store subj atoms a Ha. rewrite positive_lfp. simpl.
+    intros conds store subj atoms a Ha. rewrite positive_lfp. cbn [fst snd].
     destruct (lfp_at m conds store subj atoms O (round_fuel atoms) []) as [v ok] eqn:Hl.
     assert (Hok : ok = true).
     { pose proof (lfp_at_converges_round_fuel m conds store subj atoms Hpos O) as Hc.
@@ -600,7 +602,7 @@ Section Levels.
     (forall a, In a atoms -> le3 (eval_atom m conds store subj w a) (vget w a) = true) ->
     vle (fst (lfp m conds store subj atoms)) w.
   Proof.
-    intros conds store subj atoms w Hw. rewrite positive_lfp. simpl.
+    intros conds store subj atoms w Hw. rewrite positive_lfp. cbn [fst snd].
     apply lfp_at_least; [exact Hpos | apply vle_nil |].
     rewrite positive_atoms_at_0. exact Hw.
   Qed.
@@ -609,7 +611,7 @@ Section Levels.
   Lemma positive_lfp_outside : forall conds store subj atoms a,
     ~ In a atoms -> vget (fst (lfp m conds store subj atoms)) a = F.
   Proof.
-    intros conds store subj atoms a Ha. rewrite positive_lfp. simpl.
+    intros conds store subj atoms a Ha. rewrite positive_lfp. cbn [fst snd].
     rewrite lfp_at_outside; [reflexivity|].
     rewrite positive_atoms_at_0. destruct (existsb (atom_eqb a) atoms) eqn:He; [|reflexivity].
     apply existsb_atom_In in He. contradiction.
